@@ -14,7 +14,53 @@ type el struct {
 	ID  int `json:"id"`
 }
 
-type heapDriver struct {
+// heapCfg is an element type of the monitored heap: T carries an el (possibly in an uncomparable
+// representation); the order is always on un(x).Pri.
+type heapCfg[T any] struct {
+	name string
+	mk   func(e el) T
+	un   func(x T) el
+}
+
+var notAnElement = el{-1 << 40, -1}
+
+// []int ordered by its sum: {id, pri-id}
+func sliceOf(e el) []int { return []int{e.ID, e.Pri - e.ID} }
+func elOfSlice(x []int) el {
+	if len(x) != 2 {
+		return notAnElement
+	}
+	return el{x[0] + x[1], x[0]}
+}
+
+func runHeap(c *vkit.Case) {
+	switch (c.Index / (len(orders) * len(ctors))) % 4 {
+	case 0, 1:
+		runHeapT(c, heapCfg[el]{"T=struct", func(e el) el { return e }, func(x el) el { return x }})
+	case 2: // uncomparable element type
+		runHeapT(c, heapCfg[[]int]{"T=[]int by sum", sliceOf, elOfSlice})
+	default: // interface elements holding structs and (uncomparable) slices
+		runHeapT(c, heapCfg[any]{"T=any(struct|[]int)",
+			func(e el) any {
+				if e.ID%2 == 0 {
+					return e
+				}
+				return sliceOf(e)
+			},
+			func(x any) el {
+				switch v := x.(type) {
+				case el:
+					return v
+				case []int:
+					return elOfSlice(v)
+				}
+				return notAnElement
+			}})
+	}
+}
+
+type heapDriver[T any] struct {
+	cfg    heapCfg[T]
 	c      *vkit.Case
 	r      *vkit.Report
 	rnd    *vkit.Rand
@@ -25,7 +71,7 @@ type heapDriver struct {
 	pname  string
 	lessEl func(a, b el) bool
 
-	h [2]xheap.Heap[el] // the heap and a copy of its value (documented to behave as a reference type)
+	h [2]xheap.Heap[T] // the heap and a copy of its value (documented to behave as a reference type)
 
 	model []el        // the multiset
 	at    map[int]int // id -> index in model
@@ -39,26 +85,26 @@ type heapDriver struct {
 	pushAfterPop bool
 }
 
-func (d *heapDriver) name() string {
-	return fmt.Sprintf("Heap[order %s given as %s]", d.ord.name, d.ctor)
+func (d *heapDriver[T]) name() string {
+	return fmt.Sprintf("Heap[%s, order %s given as %s]", d.cfg.name, d.ord.name, d.ctor)
 }
 
-func (d *heapDriver) fail(sig, what string) {
+func (d *heapDriver[T]) fail(sig, what string) {
 	if d.failed {
 		return
 	}
 	d.failed = true
 	noteViolation(d.c)
 	d.c.Violation(sig, d.name()+": "+what, map[string]any{
-		"structure": "Heap", "order": d.ord.name, "constructor": d.ctor, "pool": d.pname,
+		"structure": "Heap", "element type": d.cfg.name, "order": d.ord.name, "constructor": d.ctor, "pool": d.pname,
 		"initial": d.initial, "ops(op,id,pri|arg)": capOps(d.ops), "n_ops": len(d.ops), "model_len": len(d.model),
 	})
 }
 
-func (d *heapDriver) handle() xheap.Heap[el] { return d.h[d.rnd.Intn(2)] }
+func (d *heapDriver[T]) handle() xheap.Heap[T] { return d.h[d.rnd.Intn(2)] }
 
 // try runs a library call that must not panic.
-func (d *heapDriver) try(call string, f func()) bool {
+func (d *heapDriver[T]) try(call string, f func()) bool {
 	if p := vkit.Try(f); p != nil {
 		d.fail("heap-panic", fmt.Sprintf("%s panicked with %d elements held: %s (in %s)", call, len(d.model), p.Msg, p.JuniperFrame()))
 		return false
@@ -67,7 +113,7 @@ func (d *heapDriver) try(call string, f func()) bool {
 }
 
 // lessWitness returns a held element that is less than x, if any.
-func (d *heapDriver) lessWitness(x el) *el {
+func (d *heapDriver[T]) lessWitness(x el) *el {
 	for i := range d.model {
 		if d.lessEl(d.model[i], x) {
 			return &d.model[i]
@@ -76,17 +122,17 @@ func (d *heapDriver) lessWitness(x el) *el {
 	return nil
 }
 
-func (d *heapDriver) held(x el) bool {
+func (d *heapDriver[T]) held(x el) bool {
 	i, ok := d.at[x.ID]
 	return ok && d.model[i] == x
 }
 
-func (d *heapDriver) add(x el) {
+func (d *heapDriver[T]) add(x el) {
 	d.at[x.ID] = len(d.model)
 	d.model = append(d.model, x)
 }
 
-func (d *heapDriver) del(x el) {
+func (d *heapDriver[T]) del(x el) {
 	i := d.at[x.ID]
 	last := len(d.model) - 1
 	d.model[i] = d.model[last]
@@ -96,7 +142,7 @@ func (d *heapDriver) del(x el) {
 }
 
 // check is the observation after every step: Len, and Peek when something is held.
-func (d *heapDriver) check(after string) {
+func (d *heapDriver[T]) check(after string) {
 	if d.failed {
 		return
 	}
@@ -114,7 +160,7 @@ func (d *heapDriver) check(after string) {
 		return
 	}
 	var top el
-	if !d.try("Peek()", func() { top = h.Peek() }) {
+	if !d.try("Peek()", func() { top = d.cfg.un(h.Peek()) }) {
 		return
 	}
 	d.loc.evals++
@@ -127,13 +173,13 @@ func (d *heapDriver) check(after string) {
 	}
 }
 
-func (d *heapDriver) push(pri int) {
+func (d *heapDriver[T]) push(pri int) {
 	x := el{pri, d.nextID}
 	d.nextID++
 	d.ops = append(d.ops, opRec{"Push", x.ID, pri})
 	n := len(d.model)
 	h := d.handle()
-	if !d.try("Push", func() { h.Push(x) }) {
+	if !d.try("Push", func() { h.Push(d.cfg.mk(x)) }) {
 		return
 	}
 	d.add(x)
@@ -145,11 +191,11 @@ func (d *heapDriver) push(pri int) {
 }
 
 // pop pops from a non-empty heap.
-func (d *heapDriver) pop() (x el) {
+func (d *heapDriver[T]) pop() (x el) {
 	d.ops = append(d.ops, opRec{"Pop", -1, 0})
 	n := len(d.model)
 	h := d.handle()
-	if !d.try("Pop()", func() { x = h.Pop() }) {
+	if !d.try("Pop()", func() { x = d.cfg.un(h.Pop()) }) {
 		return
 	}
 	d.loc.evals++
@@ -174,10 +220,10 @@ func (d *heapDriver) pop() (x el) {
 }
 
 // emptyMustPanic calls Pop or Peek on an empty heap.
-func (d *heapDriver) emptyMustPanic(op string) {
+func (d *heapDriver[T]) emptyMustPanic(op string) {
 	d.ops = append(d.ops, opRec{op + "-on-empty", -1, 0})
 	h := d.handle()
-	var got el
+	var got T
 	p := vkit.Try(func() {
 		if op == "Pop" {
 			got = h.Pop()
@@ -195,7 +241,7 @@ func (d *heapDriver) emptyMustPanic(op string) {
 	d.check(op + "() on empty (panicked)")
 }
 
-func (d *heapDriver) growShrink(op string, n int) {
+func (d *heapDriver[T]) growShrink(op string, n int) {
 	d.ops = append(d.ops, opRec{op, -1, n})
 	h := d.handle()
 	if !d.try(fmt.Sprintf("%s(%d)", op, n), func() {
@@ -211,7 +257,7 @@ func (d *heapDriver) growShrink(op string, n int) {
 	d.check(fmt.Sprintf("%s(%d)", op, n))
 }
 
-func (d *heapDriver) drawPri() int {
+func (d *heapDriver[T]) drawPri() int {
 	switch x := d.rnd.Intn(100); {
 	case x < 12:
 		return extreme(d.pool, d.ord.less, false) // nothing in the pool is less
@@ -225,7 +271,7 @@ func (d *heapDriver) drawPri() int {
 	return vkit.Pick(d.rnd, d.pool)
 }
 
-func (d *heapDriver) drain() {
+func (d *heapDriver[T]) drain() {
 	d.loc.count("histories", "heap: final drain")
 	first := true
 	var prev el
@@ -250,9 +296,9 @@ func (d *heapDriver) drain() {
 	}
 }
 
-func runHeap(c *vkit.Case) {
+func runHeapT[T any](c *vkit.Case, cfg heapCfg[T]) {
 	r, rnd := c.R, c.Rand
-	d := &heapDriver{c: c, r: r, rnd: rnd, loc: newLocal(), at: map[int]int{}}
+	d := &heapDriver[T]{cfg: cfg, c: c, r: r, rnd: rnd, loc: newLocal(), at: map[int]int{}}
 	defer d.loc.flush(r)
 	d.ord = orders[c.Index%len(orders)]
 	d.ctor = ctors[(c.Index/len(orders))%2]
@@ -260,6 +306,7 @@ func runHeap(c *vkit.Case) {
 	d.lessEl = func(a, b el) bool { return d.ord.less(a.Pri, b.Pri) }
 	d.sh = newShadow(d.ord.less)
 	d.loc.count("heap configurations", d.ord.name+"/"+d.ctor)
+	d.loc.count("heap element types", cfg.name)
 	d.loc.count("priority pools", "heap: "+d.pname)
 	d.loc.count("histories", "heap")
 
@@ -278,10 +325,12 @@ func runHeap(c *vkit.Case) {
 		d.initial = append(d.initial, el{vkit.Pick(rnd, d.pool), d.nextID})
 		d.nextID++
 	}
-	var arg []el
+	var arg []T
 	if n0 > 0 || rnd.Bool(0.5) {
-		arg = make([]el, n0, n0+rnd.Intn(4)*rnd.Intn(8))
-		copy(arg, d.initial)
+		arg = make([]T, n0, n0+rnd.Intn(4)*rnd.Intn(8))
+		for i, e := range d.initial {
+			arg[i] = cfg.mk(e)
+		}
 	}
 	if n0 > 0 {
 		d.loc.count("heap construction", "non-empty initial slice")
@@ -291,12 +340,12 @@ func runHeap(c *vkit.Case) {
 		d.loc.count("heap construction", "empty initial slice")
 	}
 	if !d.try("New", func() {
-		var h xheap.Heap[el]
+		var h xheap.Heap[T]
 		if d.ctor == "less" {
-			h = xheap.New(func(a, b el) bool { return d.ord.less(a.Pri, b.Pri) }, arg)
+			h = xheap.New(func(a, b T) bool { return d.ord.less(cfg.un(a).Pri, cfg.un(b).Pri) }, arg)
 		} else {
 			cmp := cmpFrom(d.ord.less)
-			h = xheap.NewCmp(func(a, b el) int { return cmp(a.Pri, b.Pri) }, arg)
+			h = xheap.NewCmp(func(a, b T) int { return cmp(cfg.un(a).Pri, cfg.un(b).Pri) }, arg)
 		}
 		d.h[0], d.h[1] = h, h
 	}) {
@@ -369,7 +418,7 @@ func runHeap(c *vkit.Case) {
 				if !ok {
 					return
 				}
-				got = append(got, x.ID)
+				got = append(got, cfg.un(x).ID)
 			}
 		})
 		d.loc.count("shadow", "heap: "+agreement(p, got, d.sh.keys()))
@@ -382,7 +431,7 @@ func runHeap(c *vkit.Case) {
 		if len(first) > 40 {
 			first = first[:40]
 		}
-		r.Sample(map[string]any{"case": c.ID(), "structure": "Heap", "order": d.ord.name, "constructor": d.ctor, "pool": d.pool,
+		r.Sample(map[string]any{"case": c.ID(), "structure": "Heap", "element type": d.cfg.name, "order": d.ord.name, "constructor": d.ctor, "pool": d.pool,
 			"initial{pri,id}": d.initial, "n_ops": len(d.ops), "first_ops(op,id,pri|arg)": first})
 	}
 }
